@@ -21,6 +21,7 @@ func (o Op) codeCopy(k int) (string, bool) {
 	a, c := n("a"), n("b")
 	ts := o.T.Src()
 	w(`var %s = %s.copy<%s>(from: %s)!`, a, st, ts, sp(o.P))
+	w(`if %s.getType() != Type<%s>() { World.fail("value copied under a supertype") }`, a, ts)
 	switch o.S {
 	case "assign":
 		w(`var %s = %s`, c, a)
@@ -155,6 +156,9 @@ func (m *Model) applyCopy(o Op, pr *Pred) (string, bool) {
 	}
 	if src == nil {
 		return FNil, true
+	}
+	if !src.T.Equal(o.T) {
+		return FPanic, true
 	}
 	a := src.Clone()
 	a.T = src.T
